@@ -79,13 +79,21 @@ func RegisterInternalMessage[T any](messageName string, reader InternalMessageRe
 }
 
 func QueryMessageDesc(message any) *MessageDesc {
-	tof := reflect.TypeOf(message).Elem()
-	desc, ok := internalMessageTypeOfDesc[tof]
+	// 仅指针类型的消息可能是已注册的内部消息；nil 以及非指针类型（字符串、数值、结构体值等）一律视为外部消息，
+	// 交由用户 Codec 处理，而不是在 Elem() 处 panic
+	tof := reflect.TypeOf(message)
+	if tof == nil || tof.Kind() != reflect.Pointer {
+		return outsideMessageDesc
+	}
+	desc, ok := internalMessageTypeOfDesc[tof.Elem()]
 	if ok {
 		return desc
 	}
 	return outsideMessageDesc
 }
+
+// ErrCodecRequired 表示消息未在内部注册表中注册，且未配置用户 Codec，无法编解码。
+var ErrCodecRequired = fmt.Errorf("message is not a registered message type and no codec is configured")
 
 func QueryMessageDescByName(messageName string) *MessageDesc {
 	desc, ok := internalMessageNameOfDesc[messageName]
